@@ -478,6 +478,24 @@ macro_rules! run_hues { ($out:expr, $rng:expr, $deep:expr, $t:ty) => {{
     one!(palette::RgbHue<T>, "RgbHue"); one!(palette::LabHue<T>, "LabHue"); one!(palette::LuvHue<T>, "LuvHue"); one!(palette::OklabHue<T>, "OklabHue"); one!(palette::hues::Cam16Hue<T>, "Cam16Hue");
 }} }
 
+
+/// `Xyz<Wp>` is the one sampled type whose bounds depend on a type parameter: standard samples under every white point lie within
+/// `[0, Wp]` (the property's "within the bounds of its space"), through `is_within_bounds` and the accessors.
+macro_rules! xyz_white_points { ($out:expr, $rng:expr, $deep:expr, $t:ty, [$($w:ident),*]) => {{
+    use palette::white_point::*;
+    use rand::SeedableRng;
+    $( {
+        let mut r = rand::rngs::StdRng::seed_from_u64($rng.next());
+        let (mx, my, mz) = (palette::Xyz::<$w, $t>::max_x(), palette::Xyz::<$w, $t>::max_y(), palette::Xyz::<$w, $t>::max_z());
+        for _ in 0..(if $deep { 20000 } else { 1500 }) {
+            let c: palette::Xyz<$w, $t> = rand::Rng::gen(&mut r);
+            let ok = c.is_within_bounds() && c.x >= 0.0 && c.x <= mx && c.y >= 0.0 && c.y <= my && c.z >= 0.0 && c.z <= mz;
+            $out.check(ok, &format!("standard-within-bounds:Xyz<{}>:{}", stringify!($w), <$t as Fl>::TAG), || format!("standard sample {:?} outside [0, ({:?}, {:?}, {:?})]", (c.x, c.y, c.z), mx, my, mz));
+        }
+        $out.count("cls:xyz-white-point");
+    } )*
+}} }
+
 pub fn run(tier: &str, seed: u64, dir: &str) {
     let mut out = Out::new("C19", dir);
     let mut rng = Rng::new(seed);
@@ -486,5 +504,6 @@ pub fn run(tier: &str, seed: u64, dir: &str) {
     run_all!(&mut out, &mut rng, deep, f64);
     run_hues!(&mut out, &mut rng, deep, f32);
     run_hues!(&mut out, &mut rng, deep, f64);
+    xyz_white_points!(out, rng, deep, f32, [A, B, C, D50, D55, D65, D75, E, F2, F7, F11]); xyz_white_points!(out, rng, deep, f64, [A, B, C, D50, D55, D65, D75, E, F2, F7, F11]);
     out.finish(dir, "");
 }
